@@ -53,6 +53,12 @@ Theorem C16_empty_iff_no_weight : forall (lw : list xlog) (us : list R),
 Proof. intros lw us. split; [exact (rejection_none lw us)|exact (rejection_nonempty lw us)]. Qed.
 Print Assumptions C16_empty_iff_no_weight.
 
+(* only weight RATIOS matter: a common offset of all log-weights (the unknown evidence) keeps exactly the same samples *)
+Theorem C16_rejection_shift : forall (lw : list xlog) (us : list R) (c : R),
+  rejection (map (fun l => xsub l c) lw) us = rejection lw us.
+Proof. exact rejection_shift. Qed.
+Print Assumptions C16_rejection_shift.
+
 (* multinomial resampling returns exactly the requested number of indices, all valid; the default is
    int(ESS), which is the floor of the ESS and lies in 1..len *)
 Theorem C16_multinomial_n : forall (choice : nat -> nat -> list R -> list nat),
